@@ -27,8 +27,7 @@ def build_native(scratch, features):
     cmd = ["cargo", "build", "--release", "--offline", "--target-dir", os.path.join(nd, "target-" + "-".join(features or ["default"]))]
     if features:
         cmd += ["--features", ",".join(features)]
-    if "pext" in features:
-        env["RUSTFLAGS"] = "-C target-feature=+bmi2"
+    env["RUSTFLAGS"] = "--cfg verif_dump" + (" -C target-feature=+bmi2" if "pext" in features else "")
     p = subprocess.run(cmd, cwd=nd, env=env, stdout=subprocess.PIPE, stderr=subprocess.STDOUT, text=True, timeout=1800)
     exe = os.path.join(nd, "target-" + "-".join(features or ["default"]), "release", "verif-native")
     _built[key] = (p.returncode == 0 and os.path.exists(exe), exe, p.stdout)
